@@ -115,10 +115,12 @@ UNIT = {
                  ("X3s", r"self\.lib_loader\s*\.lib_factories\s*\.entry\(((?:[^()]|\([^()]*\))*)\)\s*\.or_insert_with\(\|\| Rc::new\((\w+)\)\)",
                   r"std_entry_or_insert(&mut self.lib_loader.lib_factories, \1, \2)", 1, "S"),
              ],
-             "inserts": [(r"if let Some\(instance\) = ", "        broadcast use vstd::std_specs::hash::group_hash_axioms;\n        proof { axiom_library_name_is_a_key(); }\n        let ghost before = self.lib_instances@;", None, "before"),
-                         (r"let library = self\.new_library\(&factory\)\?;", "        proof { assert(self.lib_instances@ == before); }", None, "before"),
-                         (r"let library = self\.new_library\(&factory\)\?;", "        let ghost mid = self.lib_instances@;"),
-                         (r"Ok\(library\)\s*\}\s*$", "        proof { assert forall|k: LibraryName| #[trigger] before.contains_key(k) implies self.lib_instances@.contains_key(k) && self.lib_instances@[k] == before[k] by { assert(mid.contains_key(k)); } }", None, "before")],
+             # rule B1: the local holding the instantiated library is read from the code
+             "bind": {"LIB": (r"let (\w+) = self\.new_library\(&\w+\)\?;", "library")},
+             "body_start": "        broadcast use vstd::std_specs::hash::group_hash_axioms;\n        proof { axiom_library_name_is_a_key(); }\n        let ghost before = self.lib_instances@;",
+             "inserts": [(r"let ${LIB} = self\.new_library\(&\w+\)\?;", "        proof { assert(self.lib_instances@ == before); }", None, "before"),
+                         (r"let ${LIB} = self\.new_library\(&\w+\)\?;", "        let ghost mid = self.lib_instances@;"),
+                         (r"Ok\(${LIB}\)\s*\}\s*$", "        proof { assert forall|k: LibraryName| #[trigger] before.contains_key(k) implies self.lib_instances@.contains_key(k) && self.lib_instances@[k] == before[k] by { assert(mid.contains_key(k)); } }", None, "before")],
              "contract": "        ensures loader_post(name.data, old(self).lib_instances@, final(self).lib_instances@, r),"}}},
     ],
     "spec": "",
